@@ -5,18 +5,24 @@
      P b o st = (o', e, st') ∧ e ≠ MoreBytes  →  P (b ++ s) o st = (o', e, st')     for ALL b, s, o, st.
   Proved here: skipCRLF, skipLWS (without POptInputEndF), skipToken / skipLine scanners, ParseCallIDVal,
   ParseUIntVal (= ParseExpiresVal), ParseCLenVal, SkipQuoted, ParseCSeqVal, ParseFLine, and
-  ParseNameAddrPVal for every header kind (= ParseFromVal, ParseOneContact; 33-state machine); and the
-  generic theorems `runLoop_stable` / `runLoop_stableI` every loop parser is an instance of.
-  The hypotheses `csOK` / `flOK` / `naOK` say that the object handed in is new, finished, or was returned by
-  an earlier call on a prefix of the buffer (saved positions lie inside the buffer) and, for ParseFLine, that
-  the buffer respects the documented 65,535-byte limit.
-  NOT yet proved: ParseHdrLine/ParseHeaders, the list parsers (ParseAll*), ParseTokenParam/URI lists,
-  ParseSIPMsg (with its documented body-extent exemption).
+  ParseNameAddrPVal for every header kind (= ParseFromVal, ParseOneContact; 33-state machine),
+  ParseAllContactValues, ParseAllPAIValues, ParseHdrLine, ParseHeaders and **ParseSIPMsg** (`stable_msg`:
+  every flag combination without the no-more-data flag, every caller-supplied capacity, messages up to the
+  documented 65,535-byte limit; the body extent of a message without Content-Length is the property's own
+  exemption, `bodyToEnd`); and the generic theorems `runLoop_stable` / `runLoop_stableI` every loop parser is
+  an instance of.
+  The hypotheses `csOK` / `flOK` / `naOK` / `hlOK` / `msgOK` say that the object handed in is new, finished, or
+  was returned by an earlier call on a prefix of the buffer (saved positions lie inside the buffer);
+  `msgOK_init` shows that every object produced by Init satisfies `msgOK`.
+  NOT yet proved: ParseTokenParam / URI parameter and header lists (stand-alone parsers not used by
+  ParseSIPMsg); for the exempted case (`bodyToEnd`) the statement that everything but the body extent is
+  unchanged.
 -/
 import Sipsp.Proofs.CallID
 import Sipsp.Proofs.UInt
 import Sipsp.Proofs.SkipQuoted
 import Sipsp.Proofs.NameAddrL1b
+import Sipsp.Proofs.MsgL1
 
 namespace Sipsp.C03
 open Sipsp
@@ -57,6 +63,42 @@ theorem stable_fline (b s : Buf) (o : Nat) (pl : PFLine) (hok : flOK pl) (hfit :
 theorem stable_nameaddr (t : Nat) (b s : Buf) (o : Nat) (pf : PFromBody) (hok : naOK b o pf)
     {o' : Nat} {e : Err} {pf' : PFromBody} (h : parseNameAddrPVal t b o pf = (o', e, pf')) (he : e ≠ .moreBytes) :
     parseNameAddrPVal t (b ++ s) o pf = (o', e, pf') := parseNameAddrPVal_stable t b s o pf hok h he
+
+theorem stable_contacts (b s : Buf) (o : Nat) (c : PContacts) (hok : ctOK b o c) (ho : o ≤ b.size)
+    {o' : Nat} {e : Err} {c' : PContacts} (h : parseAllContactValues b o c = (o', e, c')) (he : e ≠ .moreBytes) :
+    parseAllContactValues (b ++ s) o c = (o', e, c') := parseAllContactValues_stable b s o c hok ho h he
+
+theorem stable_pais (b s : Buf) (o : Nat) (c : PPAIs) (hok : paOK b o c) (ho : o ≤ b.size)
+    {o' : Nat} {e : Err} {c' : PPAIs} (h : parseAllPAIValues b o c = (o', e, c')) (he : e ≠ .moreBytes) :
+    parseAllPAIValues (b ++ s) o c = (o', e, c') := parseAllPAIValues_stable b s o c hok ho h he
+
+theorem stable_hdrline (b s : Buf) (o : Nat) (h : Hdr) (hb : Option PHdrVals) (hok : hlOK b o h hb)
+    {o' : Nat} {e : Err} {h' : Hdr} {hb' : Option PHdrVals}
+    (hr : parseHdrLine b o h hb = (o', e, h', hb')) (he : e ≠ .moreBytes) :
+    parseHdrLine (b ++ s) o h hb = (o', e, h', hb') := parseHdrLine_stable b s o h hb hok hr he
+
+theorem stable_headers (b s : Buf) (o : Nat) (hl : HdrLst) (hb : Option PHdrVals)
+    (hok1 : hlsOK b hl) (hok2 : hbOK b o hb) {o' : Nat} {e : Err} {hl' : HdrLst} {hb' : Option PHdrVals}
+    (hr : parseHeaders b o hl hb = (o', e, hl', hb')) (he : e ≠ .moreBytes) :
+    parseHeaders (b ++ s) o hl hb = (o', e, hl', hb') := parseHeaders_stable b s o hl hb hok1 hok2 hr he
+
+/-- **C03 for the message parser** -/
+theorem stable_msg (b s : Buf) (o : Nat) (m : PSIPMsg) (flags : Nat) (hok : msgOK b o m)
+    (hfit : b.size ≤ 65535) (hnf : hasFlag flags SIPMsgNoMoreDataF = false)
+    {o' : Nat} {e : Err} {m' : PSIPMsg} (hr : parseSIPMsg b o m flags = (o', e, m'))
+    (he : e ≠ .moreBytes) (hx : ¬ bodyToEnd flags m') :
+    parseSIPMsg (b ++ s) o m flags = (o', e, m') := parseSIPMsg_stable b s o m flags hok hfit hnf hr he hx
+
+/-- … from any object produced by Init, with caller arrays of any capacity (or none) -/
+theorem stable_msg_init (b s : Buf) (o : Nat) (ho : o ≤ b.size) (m0 : PSIPMsg) (len kh kc : Nat)
+    (hdrs cts : Option Unit) (flags : Nat) (hfit : b.size ≤ 65535)
+    (hnf : hasFlag flags SIPMsgNoMoreDataF = false) {o' : Nat} {e : Err} {m' : PSIPMsg}
+    (hr : parseSIPMsg b o (m0.init len (hdrs.map fun _ => Array.replicate kh {})
+      (cts.map fun _ => Array.replicate kc {})) flags = (o', e, m'))
+    (he : e ≠ .moreBytes) (hx : ¬ bodyToEnd flags m') :
+    parseSIPMsg (b ++ s) o (m0.init len (hdrs.map fun _ => Array.replicate kh {})
+      (cts.map fun _ => Array.replicate kc {})) flags = (o', e, m') :=
+  parseSIPMsg_stable b s o _ flags (msgOK_init b o ho m0 len kh kc hdrs cts) hfit hnf hr he hx
 
 /-- a new object satisfies the hypotheses -/
 theorem new_objects_ok (b : Buf) (o : Nat) (ho : o ≤ b.size) :
